@@ -47,6 +47,7 @@ def dispatch (op : String) (args : List String) (obs : String) : String × Strin
   | "hup" => c09hup args obs
   | "dl" => c10dl args obs
   | "dial" => c10dial args obs
+  | "dialtls" => c10dialtls args obs
   | "pair" => c11pair args obs
   | "chup" => c11chup args obs
   | "chdl" => c11chdl args obs
